@@ -1,0 +1,139 @@
+// Copyright 2020-2025 Buf Technologies, Inc.
+//
+// Licensed under the Apache License, Version 2.0 (the "License");
+// you may not use this file except in compliance with the License.
+// You may obtain a copy of the License at
+//
+//      http://www.apache.org/licenses/LICENSE-2.0
+//
+// Unless required by applicable law or agreed to in writing, software
+// distributed under the License is distributed on an "AS IS" BASIS,
+// WITHOUT WARRANTIES OR CONDITIONS OF ANY KIND, either express or implied.
+// See the License for the specific language governing permissions and
+// limitations under the License.
+//go:build verif
+
+package bufctl
+
+// Contracts for the gocv verifier (author ca-C2): the verdict paths of the controller (C20). Comment-only.
+// Ghost variables c2_* (the compiler call): /verif/specs/C01_pipeline.spec.
+//
+// ---- the build inside the controller: a build failure travels upwards unchanged ----
+// controller.buildImage: one bufimage.BuildImage; a compile that failed or reported errors yields no image, the
+// FileAnnotationSet of the reported errors (or the compiler's own error) is returned as it is, not wrapped.
+//@ func (c *controller) buildImage(ctx, moduleReadBucket, functionOptions) (r, err)
+//@   property C20
+//@   modifies heap, ghost.fail, ghost.wfail, ghost.b2_steps, ghost.c2_compileN, ghost.c2_compilePaths, ghost.c2_compileErr, ghost.c2_compiled, ghost.c2_reported, ghost.c2_warned, ghost.c2_positionedErr, ghost.c2_converted
+//@   requires link-well-formed: g_wellFormedLink()
+//@   ensures at-most-one-compile: ghost.c2_compileN == old(ghost.c2_compileN) || ghost.c2_compileN == old(ghost.c2_compileN) + 1
+//@   ensures no-compile-leaves-the-record: ghost.c2_compileN == old(ghost.c2_compileN) ==> ghost.c2_compileErr == old(ghost.c2_compileErr) && ghost.c2_reported == old(ghost.c2_reported) && ghost.c2_positionedErr == old(ghost.c2_positionedErr)
+//@   ensures no-image-without-a-clean-compile: err == nil ==> ghost.c2_compileN == old(ghost.c2_compileN) + 1 && ghost.c2_compileErr == nil && len(ghost.c2_reported) == 0
+//@   ensures compile-failure-yields-no-image: ghost.c2_compileN == old(ghost.c2_compileN) + 1 && (ghost.c2_compileErr != nil || len(ghost.c2_reported) > 0) ==> r == nil && err != nil
+//@   ensures compile-diagnostics-unwrapped: ghost.c2_compileN == old(ghost.c2_compileN) + 1 && c2_diagnosable(ghost.c2_compileErr, ghost.c2_reported) ==> err != nil && typeOf(err) == typeId(*bufanalysis.fileAnnotationSet)
+//@   ensures other-compile-error-as-is: ghost.c2_compileN == old(ghost.c2_compileN) + 1 && ghost.c2_compileErr != nil && ghost.c2_compileErr != reporter.ErrInvalidSource && ghost.c2_positionedErr == nil ==> err == ghost.c2_compileErr
+//@   canary ensures err != nil
+//@   canary ensures err == nil
+//
+// getImageForWorkspace: the build of a whole workspace; the same verdict clauses as controller.buildImage (the warning pass
+// over transitive imports comes after the build and cannot turn a failed build into an image).
+//@ func (c *controller) getImageForWorkspace(ctx, workspace, functionOptions) (r, err)
+//@   property C20
+//@   modifies heap, ghost.fail, ghost.wfail, ghost.b2_steps, ghost.c2_compileN, ghost.c2_compilePaths, ghost.c2_compileErr, ghost.c2_compiled, ghost.c2_reported, ghost.c2_warned, ghost.c2_positionedErr, ghost.c2_converted
+//@   requires link-well-formed: g_wellFormedLink()
+//@   ensures at-most-one-compile: ghost.c2_compileN == old(ghost.c2_compileN) || ghost.c2_compileN == old(ghost.c2_compileN) + 1
+//@   ensures no-compile-leaves-the-record: ghost.c2_compileN == old(ghost.c2_compileN) ==> ghost.c2_compileErr == old(ghost.c2_compileErr) && ghost.c2_reported == old(ghost.c2_reported) && ghost.c2_positionedErr == old(ghost.c2_positionedErr)
+//@   ensures no-image-without-a-clean-compile: err == nil ==> ghost.c2_compileN == old(ghost.c2_compileN) + 1 && ghost.c2_compileErr == nil && len(ghost.c2_reported) == 0
+//@   ensures compile-failure-yields-no-image: ghost.c2_compileN == old(ghost.c2_compileN) + 1 && (ghost.c2_compileErr != nil || len(ghost.c2_reported) > 0) ==> r == nil && err != nil
+//@   ensures compile-diagnostics-unwrapped: ghost.c2_compileN == old(ghost.c2_compileN) + 1 && c2_diagnosable(ghost.c2_compileErr, ghost.c2_reported) ==> err != nil && typeOf(err) == typeId(*bufanalysis.fileAnnotationSet)
+//@   ensures other-compile-error-as-is: ghost.c2_compileN == old(ghost.c2_compileN) + 1 && ghost.c2_compileErr != nil && ghost.c2_compileErr != reporter.ErrInvalidSource && ghost.c2_positionedErr == nil ==> err == ghost.c2_compileErr
+//@   canary ensures err != nil
+//@   canary ensures err == nil
+//
+// buildTargetImageWithConfigs (lint, breaking): one build per target module that still has target files, in module order;
+// the FIRST build that fails ends the loop and its error is the result, unchanged, so the compile recorded last is the
+// failed one; success means that every build was clean and that there is at least one image.
+//@ func (c *controller) buildTargetImageWithConfigs(ctx, workspace, functionOptions) (r, err)
+//@   property C20
+//@   modifies heap, ghost.fail, ghost.wfail, ghost.b2_steps, ghost.c2_compileN, ghost.c2_compilePaths, ghost.c2_compileErr, ghost.c2_compiled, ghost.c2_reported, ghost.c2_warned, ghost.c2_positionedErr, ghost.c2_converted
+//@   requires link-well-formed: g_wellFormedLink()
+//@   ensures images-or-error: err == nil ==> len(r) > 0
+//@   ensures no-images-on-error: err != nil ==> len(r) == 0
+//@   ensures compiles-counted: ghost.c2_compileN >= old(ghost.c2_compileN)
+//@   ensures success-means-every-compile-clean: err == nil && ghost.c2_compileN > old(ghost.c2_compileN) ==> ghost.c2_compileErr == nil && len(ghost.c2_reported) == 0
+//@   ensures failed-compile-ends-the-run: ghost.c2_compileN > old(ghost.c2_compileN) && (ghost.c2_compileErr != nil || len(ghost.c2_reported) > 0) ==> err != nil
+//@   ensures compile-diagnostics-unwrapped: ghost.c2_compileN > old(ghost.c2_compileN) && c2_diagnosable(ghost.c2_compileErr, ghost.c2_reported) ==> err != nil && typeOf(err) == typeId(*bufanalysis.fileAnnotationSet)
+//@   ensures other-compile-error-as-is: ghost.c2_compileN > old(ghost.c2_compileN) && ghost.c2_compileErr != nil && ghost.c2_compileErr != reporter.ErrInvalidSource && ghost.c2_positionedErr == nil ==> err == ghost.c2_compileErr
+//@   loop 0 invariant counted: ghost.c2_compileN >= $entry(ghost.c2_compileN)
+//@   loop 0 invariant all-clean-so-far: ghost.c2_compileN > $entry(ghost.c2_compileN) ==> ghost.c2_compileErr == nil && len(ghost.c2_reported) == 0
+//@   loop 0 invariant one-image-per-clean-build: len(imageWithConfigs) <= $i && (ghost.c2_compileN > $entry(ghost.c2_compileN) ==> len(imageWithConfigs) > 0)
+//@   canary ensures err != nil
+//@   canary ensures err == nil
+//
+// ---- the exported operations: every error passes through handleFileAnnotationSetRetError, once, on the way out ----
+// (handleFileAnnotationSetRetError, verified in zz_verif_contracts.go: an error that is a FileAnnotationSet is printed in the
+// controller's error format and replaced by ErrFileAnnotation, status 100; any other error is returned as it is; an error is
+// never cleared.) What each wrapper inherits from it, whatever the wrapped operation did:
+//   printed-gives-100       diagnostics were printed (and printing worked) => the result is ErrFileAnnotation
+//   success-prints-nothing  no error => nothing was printed; hence printed => non-zero status
+// The wrapped operations are not followed (uncontracted: result arbitrary). That the handler is really installed is checked
+// by the vacuity guard `can-print` (a wrapper without the deferred handler could never print), that it runs once by the
+// handler's own precondition !ghost.annotPrinted.
+//@ func (c *controller) GetWorkspace(ctx, sourceOrModuleInput, options) (r, retErr)
+//@   property C20
+//@   modifies heap, ghost.annotPrinted, ghost.fail, ghost.wfail
+//@   requires fresh-command: !ghost.annotPrinted
+//@   ensures printed-gives-100: ghost.annotPrinted && !ghost.fail ==> retErr == ErrFileAnnotation
+//@   ensures success-prints-nothing: retErr == nil ==> !ghost.annotPrinted
+//@   canary ensures can-print: !ghost.annotPrinted
+//@   canary ensures retErr != nil
+//@ func (c *controller) GetWorkspaceDepManager(ctx, dirPath, options) (r, retErr)
+//@   property C20
+//@   modifies heap, ghost.annotPrinted, ghost.fail, ghost.wfail
+//@   requires fresh-command: !ghost.annotPrinted
+//@   ensures printed-gives-100: ghost.annotPrinted && !ghost.fail ==> retErr == ErrFileAnnotation
+//@   ensures success-prints-nothing: retErr == nil ==> !ghost.annotPrinted
+//@   canary ensures can-print: !ghost.annotPrinted
+//@   canary ensures retErr != nil
+//@ func (c *controller) GetImage(ctx, input, options) (r, retErr)
+//@   property C20
+//@   modifies heap, ghost.annotPrinted, ghost.fail, ghost.wfail
+//@   requires fresh-command: !ghost.annotPrinted
+//@   ensures printed-gives-100: ghost.annotPrinted && !ghost.fail ==> retErr == ErrFileAnnotation
+//@   ensures success-prints-nothing: retErr == nil ==> !ghost.annotPrinted
+//@   canary ensures can-print: !ghost.annotPrinted
+//@   canary ensures retErr != nil
+//@ func (c *controller) GetImageForInputConfig(ctx, inputConfig, options) (r, retErr)
+//@   property C20
+//@   modifies heap, ghost.annotPrinted, ghost.fail, ghost.wfail
+//@   requires fresh-command: !ghost.annotPrinted
+//@   ensures printed-gives-100: ghost.annotPrinted && !ghost.fail ==> retErr == ErrFileAnnotation
+//@   ensures success-prints-nothing: retErr == nil ==> !ghost.annotPrinted
+//@   canary ensures can-print: !ghost.annotPrinted
+//@   canary ensures retErr != nil
+// GetImageForWorkspace additionally knows what it wraps (getImageForWorkspace below): without a clean compile there is no image.
+//@ func (c *controller) GetImageForWorkspace(ctx, workspace, options) (r, retErr)
+//@   property C20
+//@   modifies heap, ghost.annotPrinted, ghost.fail, ghost.wfail, ghost.b2_steps, ghost.c2_compileN, ghost.c2_compilePaths, ghost.c2_compileErr, ghost.c2_compiled, ghost.c2_reported, ghost.c2_warned, ghost.c2_positionedErr, ghost.c2_converted
+//@   requires fresh-command: !ghost.annotPrinted
+//@   requires link-well-formed: g_wellFormedLink()
+//@   ensures printed-gives-100: ghost.annotPrinted && !ghost.fail ==> retErr == ErrFileAnnotation
+//@   ensures success-prints-nothing: retErr == nil ==> !ghost.annotPrinted
+//@   canary ensures can-print: !ghost.annotPrinted
+//@   canary ensures retErr != nil
+//@   ensures no-image-without-a-clean-compile: retErr == nil ==> ghost.c2_compileN == old(ghost.c2_compileN) + 1 && ghost.c2_compileErr == nil && len(ghost.c2_reported) == 0
+// GetTargetImageWithConfigsAndCheckClient (what lint and breaking call): for a message input the image is decoded
+// (getImageForMessageRef, contracted for C11), otherwise one image per target module is built (buildTargetImageWithConfigs below).
+//@ func (c *controller) GetTargetImageWithConfigsAndCheckClient(ctx, input, wasmRuntime, options) (r, client, retErr)
+//@   property C20
+// (every ghost variable of the C11 format contracts is listed: getImageForMessageRef and what it calls record their steps there)
+//@   modifies heap, ghost.annotPrinted, ghost.fail, ghost.wfail, ghost.sinkPaths, ghost.sinkBuckets, ghost.lastPutOptions, ghost.s_unknown, ghost.j_osStat, ghost.v_osRoots, ghost.b2_procFormat, ghost.b2_procCompression, ghost.b2_wcodec, ghost.b2_wcodecN, ghost.b2_rcodec, ghost.b2_rcodecN, ghost.b2_putRef, ghost.b2_getRef, ghost.b2_codecResolver, ghost.b2_reparsedWith, ghost.b2_marN, ghost.b2_marRecv, ghost.b2_marMsg, ghost.b2_marData, ghost.b2_marResolver, ghost.b2_unmN, ghost.b2_unmRecv, ghost.b2_unmMsg, ghost.b2_unmData, ghost.b2_unmFailed, ghost.b2_unmResolver, ghost.b2_resolverFiles, ghost.b2_cleared, ghost.b2_steps, ghost.b2_bootResolver, ghost.b2_unusedRecomputed, ghost.b2_fdsAsked, ghost.b2_putKind, ghost.c2_compileN, ghost.c2_compilePaths, ghost.c2_compileErr, ghost.c2_compiled, ghost.c2_reported, ghost.c2_warned, ghost.c2_positionedErr, ghost.c2_converted
+//@   requires fresh-command: !ghost.annotPrinted
+//@   requires link-well-formed: g_wellFormedLink()
+//@   requires no-failure-pending: !ghost.b2_unmFailed
+//@   ensures printed-gives-100: ghost.annotPrinted && !ghost.fail ==> retErr == ErrFileAnnotation
+//@   ensures success-prints-nothing: retErr == nil ==> !ghost.annotPrinted
+//@   canary ensures can-print: !ghost.annotPrinted
+//@   canary ensures retErr != nil
+// Not under contract: GetImportableImageFileInfos (engine: "out-of-fragment: element write through a slice that is not locally
+// created (aliasing not modelled)" at controller.go:592), GetMessage / PutImage / PutMessage (message and write paths; their callees are contracted for
+// C11 with a dozen ghost variables of that author, which a wrapper contract would have to repeat under modifies).
